@@ -72,8 +72,13 @@ def oracle(name, ib, mb, meta):
         if not b.op.startswith('frame') or b.fault: continue
         ctx, fr = frame_of(b); d = dec(fr + bytes(max(0, 36 - len(fr))))
         fill = int(b.op.split()[2], 16)
-        if d['tos'] == 0 and d['opc'] == 0 and mapper is None: mapper = (d['rsrc'], d['esrc'])
-        if d['tos'] != 0 or d['opc'] != 2 or mtu < 0 or faulty: continue
+        # who the mapper is, from the frames alone (as C05 prescribes): the first Discover of a discovery service while
+        # no mapper is active; released by a Reset; left open ('?') once a command of a station that is not the mapper arrived
+        if d['tos'] in (0, 1):
+            if d['opc'] == 8: mapper = None
+            elif d['opc'] == 0 and mapper is None: mapper = (d['rsrc'], d['esrc'])
+            elif d['opc'] in (2, 6, 0x0B) and (mapper is None or (mapper != '?' and mapper[0] != d['rsrc'])): mapper = '?'
+        if d['tos'] != 0 or d['opc'] != 2 or mtu < 0 or faulty or mapper == '?': continue
         cap = (mtu - 34) // 14
         buf = (fr + bytes([fill]) * mtu)[:mtu]
         n = (buf[32] << 8) | buf[33]
@@ -120,3 +125,4 @@ def count(name, lines, ib, stats, meta):
         kinds = tuple(sorted(set(fr[34 + 14 * j] for j in range(min(n, (len(fr) - 34) // 14)))))
         stats['distinct'].add((ccls, 576 if mtu == 576 else 1500 if mtu == 1500 else 9216 if mtu == 9216 else 'r', kinds, d['esrc'] != d['rsrc']))
         if len(stats['samples']) < 4 and 1 < n <= 3: stats['samples'].append({'declared': n, 'mtu': mtu, 'port_calls': [a[:70] for a in b.acts]})
+EXPLORE = dict(ops=('frame',), mtu=True)
